@@ -16,6 +16,7 @@ from __future__ import annotations
 
 import json
 import random
+from pathlib import Path as FsPath
 
 import z3
 
@@ -166,6 +167,87 @@ def run_contract_paths(chk: Check, tier: str, rnd, work, obs):
     chk.cov["run_contract_paths"] = len(kept)
 
 
+def solver_input_files(chk: Check, work):
+    """What the solver process reads is the query of the path being solved - also when the dump directory is not fresh.
+
+    Two test contracts with a test of the same name share <--dump-smt-directory>/<test name>/ and its file names
+    (<path id>.smt2, <path id>.refined.smt2).  The solver is started through harness/record_solver.py, which journals
+    the text of the file it is started on; every solve_low_level call records the SMT-LIB text of its own PathContext.
+    Each journalled text must contain the text of the corresponding call, and the verdicts must be those of the tests:
+    A.check_mul (x, y < 4, x * y == 11: infeasible, after refinement) passes, B.check_mul (x * y == 6) fails."""
+    import shutil
+    import sys
+
+    import halmos.solve as hsolve
+    from harness.artifacts import Contract, Fn, arg, panic, revert_plain, run_contract
+    from harness.hrun import hmain
+
+    z3bin = shutil.which("z3")
+    if z3bin is None:
+        raise MachineryError("no z3 binary for the end-to-end solver scenario")
+
+    def body(product):
+        return ([("PUSH", 4)] + arg(0) + ["LT", "ISZERO", ("PUSHL", "rev"), "JUMPI", ("PUSH", 4)] + arg(1) + ["LT", "ISZERO", ("PUSHL", "rev"), "JUMPI"]
+                + arg(1) + arg(0) + ["MUL", ("PUSH", product), "EQ", ("PUSHL", "bad"), "JUMPI", "STOP", ("LABEL", "bad")] + panic(1) + [("LABEL", "rev")] + revert_plain())
+
+    ddir = work / "smt-dump"
+    journal = work / "solver-journal.ndjson"
+    recorder = str((FsPath(__file__).resolve().parent.parent / "harness" / "record_solver.py"))
+    calls = []
+    orig_low = hsolve.solve_low_level
+
+    def low(path_ctx):
+        calls.append((str(path_ctx.dump_file), path_ctx.query.smtlib))
+        return orig_low(path_ctx)
+
+    for cache in ((), ("--cache-solver",)):
+        if ddir.exists():
+            shutil.rmtree(ddir)
+        journal.unlink(missing_ok=True)
+        calls.clear()
+        hsolve.solve_low_level = low
+        hmain.solve_low_level = low
+        try:
+            verdicts = {}
+            for name, product in (("MulA", 11), ("MulB", 6)):
+                c = Contract(name, [Fn("setUp()", ["STOP"]), Fn("check_mul(uint256,uint256)", body(product))])
+                out = run_contract(c, cli=("--dump-smt-directory", str(ddir), "--solver-command", f"{sys.executable} -S {recorder} {journal} {z3bin}", "--solver-threads", "1") + cache)
+                r = out.by_sig().get("check_mul(uint256,uint256)")
+                if r is None:
+                    raise MachineryError(f"no result for {name}.check_mul: {out.stdout[-300:]} {out.exception}")
+                verdicts[name] = r.exitcode
+        finally:
+            hsolve.solve_low_level = orig_low
+            hmain.solve_low_level = orig_low
+        recs = [json.loads(ln) for ln in journal.read_text().splitlines()] if journal.exists() else []
+        tag = "cache" if cache else "plain"
+        if len(recs) != len(calls) or not calls:
+            raise MachineryError(f"solver journal has {len(recs)} entries for {len(calls)} solve_low_level calls")
+        per_file: dict = {}
+        for f, smt in calls:
+            per_file.setdefault(f, []).append(smt)
+        seen: dict = {}
+        reused = 0
+        for rec in recs:
+            k = seen.get(rec["file"], 0)
+            seen[rec["file"]] = k + 1
+            want = per_file.get(rec["file"], [])
+            chk.count("evaluations")
+            chk.count("traces_validated_against_impl")
+            reused += k > 0
+            if k >= len(want) or want[k].strip() not in rec["text"]:
+                chk.violation(f"solver-input-file:{tag}:{'refined' if '.refined' in rec['file'] else 'query'}",
+                              f"the file the solver was started on ({rec['file']}, use #{k + 1} of that name) does not contain the query of the path being solved",
+                              {"file": rec["file"], "solver_read": rec["text"][:1500], "query_of_the_path": (want[k] if k < len(want) else "")[:1500]})
+        chk.nontrivial(("solver-input", tag, reused > 0))
+        if not reused:
+            raise MachineryError("the two contracts did not share a dump file name: the scenario does not exercise a non-fresh directory")
+        if verdicts != {"MulA": 0, "MulB": 1}:
+            chk.violation(f"solver-input-file:{tag}:verdict", f"A.check_mul (infeasible) / B.check_mul (x = 2, y = 3) sharing one --dump-smt-directory: exit codes {verdicts}, expected PASS / FAIL",
+                          {"verdicts": verdicts})
+    chk.cov["solver_input_files"] = "two contracts, same test name, one --dump-smt-directory, plain and --cache-solver; journalled solver input vs PathContext.query"
+
+
 def _consts(e, out, seen=None):
     seen = set() if seen is None else seen
     if e.get_id() in seen:
@@ -200,6 +282,7 @@ def run(chk: Check, tier: str):
                 check_path(chk, f"{prog.name}:{pi}", p.ex.path, ins, work, obs, {"program": prog.name, "code": {hex(a): c.hex() for a, c in prog.accounts.items()}})
                 npaths += 1
         run_contract_paths(chk, tier, rnd, work, obs)
+        solver_input_files(chk, work)
         chk.cov["paths"] = npaths
         # --- SolverQuery.tla: design model, then the recorded observations
         r = run_tlc("SolverQuery", "MC_SolverQuery.cfg", work=work, expect_violation=True)
